@@ -90,6 +90,12 @@ def run_shard(spec, acc):
             check_text('\n'.join(pp(gen_prog.build_shape(chain, 'global'))), acc, api, con, nt, 'chain')
             check_text('\n'.join(pp(gen_prog.build_shape(chain, 'function'))), acc, api, con, nt, 'chain')
             check_text('\n'.join(pp(three_functions(chain))), acc, api, con, True, 'chain3')
+            if len(chain) <= 2:
+                # the same function defined inside an open global if / for / while block
+                f = gen_prog.build_shape(chain, 'function')
+                for wrap in (['if', [[gen_prog.C('nx'), [f[0]]]], None], ['for', 'ito', None, gen_prog.C('arrayNew', gen_prog.N(1)), [f[0], ['break']]],
+                             ['while', gen_prog.C('nx'), [f[0], ['if', [[gen_prog.C('nx'), [['continue']]]], None]]]):
+                    check_text('\n'.join(pp([wrap] + f[1:])), acc, api, con, True, 'function-in-block')
             acc.cover('depths', str(len(chain)))
     else:
         small = list(gen_prog.shapes(2))
@@ -109,6 +115,7 @@ def run_shard(spec, acc):
         for i in range(spec['n_random']):
             rnd = random.Random(base + i)
             gen = gen_prog.ProgGen(rnd, maxdepth=rnd.choice([3, 5, 6, 7]))
+            gen.late_defs = True
             check_text('\n'.join(pp(gen.program())), acc, api, con, True, 'random')
     acc.count('contract_evals_parse', con.evals.get('parse_script_post', 0))
     if con.evals.get('parse_script_post', 0) == 0:
